@@ -6,7 +6,7 @@ from runner import Script, Cfg
 
 ID = "C01"
 THEOREMS = ["C01_no_panic_closed", "C01_histories_closed", "C01_current_env_small", "C01_no_panic", "C01_histories",
-            "C01_table_invariant_initially", "Env.the_env_ok"]
+            "C01_table_invariant_initially", "C01_table_invariant_pending", "Env.the_env_ok"]
 MONITORS = []
 NEEDS_RELEASE = True
 RULE = ("(a) every frame stream of the other properties' generators replayed under logger in {none, console, logfmt} x "
